@@ -90,10 +90,21 @@ def coherence_problem(gtirb, ir):
     return None
 
 
+_n = [0]
+
+
 def load_outcome(gtirb, raw, limit=20):
+    _n[0] += 1
     try:
-        with core.time_limit(limit):
-            ir = gtirb.IR.load_protobuf_file(io.BytesIO(raw))
+        if _n[0] % 5 == 0:      # the path-based entry point, on a real file
+            path = ms._scratch_path()
+            with open(path, "wb") as fh:
+                fh.write(raw)
+            with core.time_limit(limit):
+                ir = gtirb.IR.load_protobuf(path)
+        else:
+            with core.time_limit(limit):
+                ir = gtirb.IR.load_protobuf_file(io.BytesIO(raw))
         return "ok", ir, None
     except core.ImplTimeout:
         return "hang", None, "no answer within %ds" % limit
